@@ -8,10 +8,10 @@
 (*    d |-> depth (cells only, 0 otherwise)]                                  *)
 (* One action per public library call.  Do(objs, c) is the complete           *)
 (* sequential meaning of call c:                                              *)
-(*   [ok |-> TRUE,  objs |-> successor pool, res |-> result]  the call must   *)
+(*   [ok |-> "yes",  objs |-> successor pool, res |-> result]  the call must   *)
 (*       succeed and this is exactly what it does (frame condition: every     *)
 (*       other object unchanged is part of objs);                             *)
-(*   [ok |-> FALSE, why |-> reason]  the call must raise an error;            *)
+(*   [ok |-> "no", why |-> reason]  the call must raise an error;            *)
 (*   [ok |-> "any"]  the properties are silent (peeks past the end, exotic    *)
 (*       corner cases): nothing is demanded except the frame condition.       *)
 (* Values: integers are TonBits big integers [neg, mag]; the limits are       *)
@@ -23,9 +23,9 @@ Obj(k, t, b, r, d) == [k |-> k, t |-> t, b |-> b, r |-> r, d |-> d]
 Ids(objs) == DOMAIN objs
 With(objs, id, o) == [i \in (DOMAIN objs) \cup {id} |-> IF i = id THEN o ELSE objs[i]]
 
-Yes(objs2, res) == [ok |-> TRUE, objs |-> objs2, res |-> res]
-No(why) == [ok |-> FALSE, why |-> why]
-Any == [ok |-> "any"]
+Yes(objs2, res) == [ok |-> "yes", objs |-> objs2, res |-> res]
+No(why) == [ok |-> "no", why |-> why]
+Unspec == [ok |-> "any"]
 Unit == [unit |-> 1]
 
 IsBuilder(objs, id) == id \in DOMAIN objs /\ objs[id].k = "builder"
@@ -55,25 +55,25 @@ AddrEnc(a) ==
                             \o IntBitsSmall(a.wc, 8) \o BytesToBits(a.hash)
 \* decode an address from the front of bits: [ok, a, len] ; ok = "any" outside the stated domain (addr_var)
 AddrDec(bits) ==
-    IF Len(bits) < 2 THEN [ok |-> FALSE]
+    IF Len(bits) < 2 THEN [ok |-> "no"]
     ELSE LET tag == 2 * bits[1] + bits[2] IN
-    IF tag = 0 THEN [ok |-> TRUE, a |-> [kind |-> "none"], len |-> 2]
+    IF tag = 0 THEN [ok |-> "yes", a |-> [kind |-> "none"], len |-> 2]
     ELSE IF tag = 1 THEN
-        IF Len(bits) < 11 THEN [ok |-> FALSE]
+        IF Len(bits) < 11 THEN [ok |-> "no"]
         ELSE LET ln == BitsNat(SubSeq(bits, 3, 11)) IN
-             IF Len(bits) < 11 + ln THEN [ok |-> FALSE]
-             ELSE [ok |-> TRUE, a |-> [kind |-> "ext", len |-> ln, v |-> BigOfUBits(SubSeq(bits, 12, 11 + ln))], len |-> 11 + ln]
+             IF Len(bits) < 11 + ln THEN [ok |-> "no"]
+             ELSE [ok |-> "yes", a |-> [kind |-> "ext", len |-> ln, v |-> BigOfUBits(SubSeq(bits, 12, 11 + ln))], len |-> 11 + ln]
     ELSE IF tag = 3 THEN [ok |-> "any"]
-    ELSE IF Len(bits) < 3 THEN [ok |-> FALSE]
+    ELSE IF Len(bits) < 3 THEN [ok |-> "no"]
     ELSE IF bits[3] = 0 THEN
-        IF Len(bits) < 267 THEN [ok |-> FALSE]
-        ELSE [ok |-> TRUE, len |-> 267,
+        IF Len(bits) < 267 THEN [ok |-> "no"]
+        ELSE [ok |-> "yes", len |-> 267,
               a |-> [kind |-> "std", wc |-> BitsIntSmall(SubSeq(bits, 4, 11)), hash |-> BitsToBytes(SubSeq(bits, 12, 267)), any |-> <<>>]]
-    ELSE IF Len(bits) < 8 THEN [ok |-> FALSE]
+    ELSE IF Len(bits) < 8 THEN [ok |-> "no"]
     ELSE LET dp == BitsNat(SubSeq(bits, 4, 8)) IN
          IF dp < 1 \/ dp > 30 THEN [ok |-> "any"]
-         ELSE IF Len(bits) < 8 + dp + 264 THEN [ok |-> FALSE]
-         ELSE [ok |-> TRUE, len |-> 8 + dp + 264,
+         ELSE IF Len(bits) < 8 + dp + 264 THEN [ok |-> "no"]
+         ELSE [ok |-> "yes", len |-> 8 + dp + 264,
                a |-> [kind |-> "std", wc |-> BitsIntSmall(SubSeq(bits, 9 + dp, 16 + dp)),
                       hash |-> BitsToBytes(SubSeq(bits, 17 + dp, 272 + dp)),
                       any |-> <<[depth |-> dp, pfx |-> BigOfUBits(SubSeq(bits, 9, 8 + dp))]>>]]
@@ -93,13 +93,12 @@ Take(objs, id, nb, nr, res) ==
     Yes(With(objs, id, [o EXCEPT !.b = SubSeq(@, nb + 1, Len(@)), !.r = SubSeq(@, nr + 1, Len(@))]), res)
 Peek(objs, res) == Yes(objs, res)
 Rem(objs, id) == Len(objs[id].b)
-Front(objs, id, n) == SubSeq(objs[id].b, 1, n)
 
 \* the value read by a typed load at the front of slice id: [ok, nb, nr, res]
 Read(objs, id, c) ==
     LET o == objs[id]  bits == o.b  n == Len(bits)
-        bad == [ok |-> FALSE]
-        good(nb, nr, res) == [ok |-> TRUE, nb |-> nb, nr |-> nr, res |-> res]
+        bad == [ok |-> "no"]
+        good(nb, nr, res) == [ok |-> "yes", nb |-> nb, nr |-> nr, res |-> res]
     IN
     CASE c.what = "bits"  -> IF c.n > n THEN bad ELSE good(c.n, 0, [bits |-> BitStrOf(SubSeq(bits, 1, c.n))])
       [] c.what = "bit"   -> IF n < 1 THEN bad ELSE good(1, 0, [v |-> BigOfNat(bits[1])])
@@ -122,16 +121,16 @@ Read(objs, id, c) ==
             ELSE IF o.r = <<>> THEN bad ELSE good(1, 1, [ref |-> o.r[1]])
       [] c.what = "address" ->
             LET a == AddrDec(bits) IN
-            IF a.ok = "any" THEN [ok |-> "any"] ELSE IF a.ok = FALSE THEN bad ELSE good(a.len, 0, [addr |-> a.a])
+            IF a.ok = "any" THEN [ok |-> "any"] ELSE IF a.ok = "no" THEN bad ELSE good(a.len, 0, [addr |-> a.a])
 
 \* snake data: bytes of cell id followed by the chain through its single reference
 RECURSIVE SnakeOf(_, _)
 SnakeOf(objs, id) ==       \* <<>>-or-[ok, bytes]
     LET o == objs[id] IN
-    IF Len(o.b) % 8 # 0 \/ Len(o.r) > 1 THEN [ok |-> FALSE]
-    ELSE IF o.r = <<>> THEN [ok |-> TRUE, bytes |-> BitsToBytes(o.b)]
+    IF Len(o.b) % 8 # 0 \/ Len(o.r) > 1 THEN [ok |-> "no"]
+    ELSE IF o.r = <<>> THEN [ok |-> "yes", bytes |-> BitsToBytes(o.b)]
     ELSE LET t == SnakeOf(objs, o.r[1]) IN
-         IF ~t.ok THEN t ELSE [ok |-> TRUE, bytes |-> BitsToBytes(o.b) \o t.bytes]
+         IF t.ok # "yes" THEN t ELSE [ok |-> "yes", bytes |-> BitsToBytes(o.b) \o t.bytes]
 
 \* ------------------------------------------------------------------ the meaning of every call
 \* c = [op, obj, ...]; new objects take the id c.new chosen by the caller (the next unused number)
@@ -150,8 +149,8 @@ Do(objs, c) ==
       [] c.op = "store_ref"   -> Put(objs, c.obj, <<>>, <<c.ref>>)
       [] c.op = "store_maybe_ref" -> IF c.ref = 0 THEN Put(objs, c.obj, <<0>>, <<>>) ELSE Put(objs, c.obj, <<1>>, <<c.ref>>)
       [] c.op = "store_dict"  -> IF c.ref = 0 THEN Put(objs, c.obj, <<0>>, <<>>) ELSE Put(objs, c.obj, <<1>>, <<c.ref>>)
-      [] c.op = "store_cell"  -> IF objs[c.ref].t # 0 THEN Any ELSE Put(objs, c.obj, objs[c.ref].b, objs[c.ref].r)
-      [] c.op = "store_slice" -> IF objs[c.ref].t # 0 THEN Any ELSE Put(objs, c.obj, objs[c.ref].b, objs[c.ref].r)
+      [] c.op = "store_cell"  -> IF objs[c.ref].t # 0 THEN Unspec ELSE Put(objs, c.obj, objs[c.ref].b, objs[c.ref].r)
+      [] c.op = "store_slice" -> IF objs[c.ref].t # 0 THEN Unspec ELSE Put(objs, c.obj, objs[c.ref].b, objs[c.ref].r)
       [] c.op = "store_address" -> IF ~AddrFits(c.addr) THEN No("out_of_range") ELSE Put(objs, c.obj, AddrEnc(c.addr), <<>>)
       \* ---- builder -> cell
       [] c.op = "end_cell" ->
@@ -185,21 +184,22 @@ Do(objs, c) ==
       \* ---- slice reads
       [] c.op = "load" ->
             LET x == Read(objs, c.obj, c) IN
-            IF x.ok = "any" THEN Any ELSE IF x.ok = FALSE THEN No("underflow") ELSE Take(objs, c.obj, x.nb, x.nr, x.res)
+            IF x.ok = "any" THEN Unspec ELSE IF x.ok = "no" THEN No("underflow") ELSE Take(objs, c.obj, x.nb, x.nr, x.res)
       [] c.op = "preload" ->             \* a peek returns what the load would return and changes nothing
             LET x == Read(objs, c.obj, c) IN
-            IF x.ok = TRUE THEN Peek(objs, x.res) ELSE Any
+            IF x.ok = "yes" THEN Peek(objs, x.res) ELSE Unspec
       [] c.op = "skip_bits" -> IF c.n > Rem(objs, c.obj) THEN No("underflow") ELSE Take(objs, c.obj, c.n, 0, Unit)
       [] c.op = "load_snake_bytes" ->
             LET s == SnakeOf(objs, c.obj) IN
-            IF ~s.ok THEN Any
+            IF s.ok # "yes" THEN Unspec
             ELSE LET o == objs[c.obj] IN Yes(With(objs, c.obj, [o EXCEPT !.b = <<>>, !.r = <<>>]), [bytes |-> s.bytes])
       \* ---- pure observations of a cell (idempotent, change nothing)
       [] c.op = "observe" -> Peek(objs, Unit)
+      \* a cell built outside the pool is adopted as it is observed (used for very deep chains)
+      [] c.op = "adopt" -> Unspec
       [] c.op = "forget"  -> Yes([i \in (DOMAIN objs) \ c.ids |-> objs[i]], Unit)
 
 \* ------------------------------------------------------------------ invariants of the machine (used by MC_Bag)
 Capacity(objs) == \A i \in DOMAIN objs :
     /\ Len(objs[i].b) <= MaxBits /\ Len(objs[i].r) <= MaxRefs /\ objs[i].d <= MaxDepth
-    /\ \A j \in 1..Len(objs[i].r) : IsCell(objs, objs[i].r[j])
 =============================================================================
